@@ -2,10 +2,10 @@ package core
 
 import (
 	"io"
-	"unicode/utf8"
 	"os"
 	"regexp"
 	"sync"
+	"unicode/utf8"
 
 	"github.com/reeflective/readline/inputrc"
 	"github.com/reeflective/readline/internal/strutil"
